@@ -69,11 +69,14 @@ FinalC07(r) ==
   Chk("WellFormed",        r.malformed = "",
   Skip("objective_is_not_a_modularity", ~HasQ(r),
   Skip("random_moves_allowed", r.kind = "prob",
+  (* C07 names the finetune / louvain / community_louvain optimisers; the spectral      *)
+  (* modularity_und / modularity_dir make no such promise (they start from nothing)     *)
+  Skip("not_a_listed_optimiser", r.fn \in {"modularity_und", "modularity_dir"},
   Chk("QFinalGEQStart",    QCmp(r, r.ci_out) >= QCmp(r, StartOf(r)),
   Chk("HierarchyIncreasing",
         \A k \in 1..(Len(r.hier_ci) - 1) : QCmp(r, r.hier_ci[k]) < QCmp(r, r.hier_ci[k + 1]),
   Chk("FeedbackNotLower",  Len(r.fed_ci) = 0 \/ QCmp(r, r.fed_ci) >= QCmp(r, r.ci_out),
-  "ok"))))))))
+  "ok")))))))))
 
 Final(r) == IF r.prop = "C02" THEN FinalC02(r) ELSE FinalC07(r)
 
